@@ -110,11 +110,11 @@ def gen_cases(seed, tier):
     lengths = LENGTHS_Q if tier == 'quick' else LENGTHS_T
     cases = []
     for i in range(n):
-        api = APIS[i % 6]
-        bits = 2 + (i // 6) % 7
-        period = PERIODS[(i // 42) % 7]
-        zv = ((i // 6) % 5 == 4)
-        ncl = NCLASSES[(i // 2) % 5]
+        api = common.stratum(i, 91, APIS)
+        bits = 2 + common.stratum(i, 92, 7)
+        period = common.stratum(i, 93, PERIODS)
+        zv = (common.stratum(i, 94, 5) == 4)
+        ncl = common.stratum(i, 95, NCLASSES)
         sname, sexp = SCALE_CLASSES[int(rng.integers(len(SCALE_CLASSES)))]
         scale0 = 10.0 ** sexp
         cx = api in ('complex', 'func_complex')
@@ -191,8 +191,8 @@ def gen_cases(seed, tier):
                                             std=float(p['scale'] * rng.uniform(0.5, 2.0)))
             ops.append(call)
         cases.append(dict(api=api, bits=bits, period=period, window=ncl, N=int(N), L=L, fwhm=fwhm, tm=tm, zv=zv,
-                          scale=sname, ops=ops, twin=bool(api == 'complex' and (i // 6) % 2 == 0 and hl <= 12),
-                          twin_part=int((i // 12) % 2), sub=int(rng.integers(2 ** 31))))
+                          scale=sname, ops=ops, twin=bool(api == 'complex' and common.stratum(i, 96, 2) == 0 and hl <= 12),
+                          twin_part=int(common.stratum(i, 97, 2)), sub=int(rng.integers(2 ** 31))))
     return cases
 
 
